@@ -148,6 +148,18 @@ class C17(Prop):
                 pairs += [(-2**62, 2**62 + 5), (2**62 + 7, -2**62)]
             for y, z in pairs:
                 yield {"stream": "dtype_rule", "dtype": d, "y": [y], "z": [z], "w": None, "container": "np_" + d, "big": False}
+        # the list -> column step (series_from_values) against its model, exhaustively for short lists: every arrangement of
+        # Python ints / floats, numpy integer / floating scalars and None (also polars' two constructors themselves, which the
+        # model takes as parameters)
+        import itertools
+
+        atoms = [("none", None), ("pyInt", 1), ("pyInt", -3), ("pyFloat", 2.5), ("pyFloat", -1.75), ("pyFloat", 4.0),
+                 ("npInt", 2), ("npInt", -1), ("npFloat", 0.5), ("npFloat", 3.0)]
+        for L in ((1, 2, 3) if tier == "quick" else (1, 2, 3, 4)):
+            for combo in itertools.product(atoms, repeat=L):
+                if L == 3 and tier == "quick" and rng.random() < 0.5:
+                    continue
+                yield {"stream": "series", "elems": [list(a) for a in combo], "y": [0], "z": [0], "w": None, "container": "list", "big": False}
         N = 1500 if tier == "quick" else 25000
         for k in range(N):
             ep = ENTRY[k % len(ENTRY)]
@@ -308,8 +320,34 @@ class C17(Prop):
         X = np.column_stack([np.asarray(case["feature"], dtype=float), np.ones(len(case["y"]))])
         return {"vals": flat(compute_marginal(y, z, X=X, feature_name=0, weights=w, n_bins=case["n_bins"], bin_method="quantile"))}
 
+    @staticmethod
+    def series_obs(case):
+        import polars as pl
+        from model_diagnostics._utils.array import series_from_values
+
+        def mk(kind, v):
+            return {"none": lambda: None, "pyInt": lambda: int(v), "pyFloat": lambda: float(v), "npInt": lambda: np.int64(v),
+                    "npFloat": lambda: np.float64(v)}[kind]()
+
+        vals = [mk(k, v) for k, v in case["elems"]]
+
+        def col(f):
+            try:
+                s_ = f()
+            except TypeError:
+                return {"dtype": "TypeError"}
+            except Exception as e:
+                return {"dtype": "Other:" + type(e).__name__, "msg": str(e)[:100]}
+            kind = "null" if s_.dtype == pl.Null else "int" if s_.dtype.is_integer() else "float" if s_.dtype.is_float() else str(s_.dtype)
+            return {"dtype": kind, "values": s_.to_list()}
+
+        return {"lib": col(lambda: series_from_values(list(vals))), "strict": col(lambda: pl.Series(values=list(vals))),
+                "nonstrict": col(lambda: pl.Series(values=list(vals), strict=False))}
+
     def impl(self, case):
         global _REUSE
+        if case["stream"] == "series":
+            return self.series_obs(case)
         if case["stream"] == "dtype_rule":
             import warnings
             from model_diagnostics.calibration import identification_function
@@ -347,6 +385,11 @@ class C17(Prop):
         return out
 
     def model_request(self, case):
+        if case["stream"] == "series":
+            from fractions import Fraction
+            from .core import enc
+
+            return {"op": "series", "elems": [[k, None if v is None else enc(Fraction(v))] for k, v in case["elems"]]}
         if case["stream"] == "dtype_rule":
             return {"op": "dtype_rule", "y": str(case["y"][0]), "z": str(case["z"][0])}
         if case["stream"] != "score" or case["big"] or case.get("kind") == "elementary":
@@ -356,6 +399,18 @@ class C17(Prop):
                                 None if case["w"] is None else [float(v) for v in case["w"]])
 
     def compare(self, case, io, mo):
+        if case["stream"] == "series":
+            from fractions import Fraction
+
+            for which in ("lib", "strict", "nonstrict"):
+                a, b = io[which], mo[which]
+                bv = None if "values" not in b else [None if v is None else Fraction(v) for v in b["values"]]
+                av = None if "values" not in a else [None if v is None else Fraction(v) for v in a["values"]]
+                if a["dtype"] != b["dtype"] or av != bv:
+                    what = {"lib": "series_from_values", "strict": "pl.Series(values) [a parameter of the model]",
+                            "nonstrict": "pl.Series(values, strict=False) [a parameter of the model]"}[which]
+                    return f"{what} on {case['elems']}: {a}, model {b}"
+            return None
         if case["stream"] == "dtype_rule":
             if "err" in io:
                 return None if case["dtype"] == "bool" and io["err"] == "TypeError" else f"valid input rejected: {io}"
@@ -380,6 +435,17 @@ class C17(Prop):
         return None
 
     def oracle(self, case, io):
+        if case["stream"] == "series":
+            # the property: the column holds the numbers of the list, whatever Python / numpy scalar types they come in
+            from fractions import Fraction
+
+            want = [None if v is None else Fraction(v) for _, v in case["elems"]]
+            got = io["lib"]
+            if "values" not in got:
+                return f"series_from_values refuses the list {case['elems']}: {got}"
+            if [None if v is None else Fraction(v) for v in got["values"]] != want:
+                return f"series_from_values turns the list {case['elems']} into {got['values']}"
+            return None
         if case["stream"] == "dtype_rule":
             if "err" in io:
                 return f"valid input rejected: {io}"
@@ -420,6 +486,8 @@ class C17(Prop):
         return None
 
     def nontrivial(self, case, io):
+        if case["stream"] == "series":
+            return len({k for k, _ in case["elems"]}) > 1
         if case["stream"] == "dtype_rule":
             return case["y"] != case["z"]
         return case["container"] != "np_float64" and len(set(case["y"])) > 1
